@@ -27,7 +27,7 @@ RULE = ('case = a version 1.0 dataset directory (text tables written by kapture_
         'files, foreign files, image folders named like the feature type; observations without type column, unsorted, with '
         'repeated points) + explicit or defaulted type names + metric names + image transfer strategies. Every case is '
         'upgraded by the in-place route (on a copy) and by the copy route once per listed strategy; each result is listed '
-        'file by file and loaded with kapture_from_dir. A second stream holds trees outside the domain (wrong or missing '
+        'file by file and loaded with kapture_from_dir. Every subset of the five reconstruction parts is enumerated on a two-image dataset (quick: defaulted names, version lines present; thorough: x explicit keypoints type x version lines absent). A further stream holds trees outside the domain (wrong or missing '
         'version lines, unknown element type, unnamed feature without explicit type, matches/observations without a '
         'keypoints type, malformed observation rows, already upgraded trees). Non-trivial = in the domain of at least one '
         'route and holding at least one reconstruction part or three tables; distinct = distinct (tree, arguments, strategies).')
@@ -45,7 +45,7 @@ ASSUMPTIONS = ['text files use LF line ends and contain no NUL; fields contain n
                'input and output directories are given as absolute paths (root_link with a relative input path makes a dangling link)',
                'image names have a base name with at least one character other than a dot',
                'whitespace / digits / case folding outside ASCII are not modelled (str.strip, \\s, \\d, str.lower)']
-EXHAUSTIVE = {'quick': False, 'thorough': False}
+EXHAUSTIVE = {'quick': False, 'thorough': False}     # the part-subset scope is enumerated completely, the rest is sampled
 TECHNIQUE = ('Coq proofs over an executable file-tree model of both upgrade routes and of the 1.1 loader (content of the '
              'upgraded tree = relabelled content of the 1.0 tree, both routes agree, version declared, frame conditions, '
              'guard on already upgraded trees, pre-repair behaviour refuted); differential correspondence by vm_compute on '
@@ -75,6 +75,7 @@ VERSION_RE = re.compile(r'# kapture format\:\s*(?P<version>\d+\.\d+)')
 
 
 def _quiet():
+    import kapture.utils.logging  # noqa: F401  (sets its own level at import: import first, silence after)
     logging.getLogger('kapture').setLevel(logging.CRITICAL + 1)
     logging.getLogger('upgrade_1_0_to_1_1').setLevel(logging.CRITICAL + 1)
 
@@ -623,6 +624,8 @@ def _relayout(rng, text11, version_line, pad=True, numpy_reader=False):
                 out.append(','.join(' ' * rng.randint(0, 3) + f + ' ' * rng.randint(0, 2) for f in fields))
     if version_line is None and rng.random() < 0.3 and out and out[0].startswith('#'):
         out = out[1:]          # no comment line at all before the data
+    while version_line is None and out and VERSION_RE.search(out[0]):
+        out = out[1:]          # (a comment that happens to carry the version pattern must not come first)
     text = '\n'.join(out)
     if rng.random() < 0.85 or not out:
         text += '\n'
@@ -924,12 +927,42 @@ def gen_malformed(rng, tmp):
     return c
 
 
+def gen_exhaustive(kt_given, versions):
+    """Every subset of the five reconstruction parts on a two-image dataset (2^5 trees), type names defaulted or
+    the keypoints type given explicitly, version lines all present or all absent."""
+    H = '# kapture format: 1.0\n' if versions else ''
+    imgs = ['a.jpg', 'd/b.jpg']
+    base = {'sensors/sensors.txt': ['T', H + 'cam0, cam, camera, SIMPLE_PINHOLE, 640, 480, 500, 320, 240\n'],
+            'sensors/records_camera.txt': ['T', H + '0, cam0, a.jpg\n1, cam0, d/b.jpg\n']}
+    out = []
+    for mask in range(32):
+        kp, ds, gf, mt, ob = [(mask >> i) & 1 for i in range(5)]
+        t = {'top': dict(base), 'kp': None, 'ds': None, 'gf': None, 'mt': None,
+             'rd': {i: ['B', 'IMG:' + i] for i in imgs}}
+        if kp:
+            t['kp'] = dict([('keypoints.txt', ['T', H + 'KP, float32, 2\n'])] + [(i + '.kpt', ['B', 'k:' + i]) for i in imgs])
+        if ds:
+            t['ds'] = dict([('descriptors.txt', ['T', H + 'DS, uint8, 8\n'])] + [(i + '.desc', ['B', 'd:' + i]) for i in imgs])
+        if gf:
+            t['gf'] = dict([('global_features.txt', ['T', H + 'GF, float32, 4\n'])] + [(i + '.gfeat', ['B', 'g:' + i]) for i in imgs])
+        if mt:
+            t['mt'] = {'a.jpg.overlapping/d/b.jpg.matches': ['B', 'm']}
+        if ob:
+            t['top']['reconstruction/points3d.txt'] = ['T', H + '# X, Y, Z\n1.0000000000,2.0000000000,3.0000000000\n']
+            t['top'][OBS] = ['T', H + '0, a.jpg, 1, d/b.jpg, 2\n']
+        a = {'kt': 'KT' if kt_given else None, 'dt': None, 'gt': None, 'dm': 'L2', 'gm': 'L2'}
+        out.append({'tree': t, 'args': a, 'strategies': ['copy'], 'stream': 'subsets'})
+    return out
+
+
 def gen_cases(rng, tier):
     _quiet()
     tmp = os.path.join(kv.BUILD, 'tmp', 'C20-gen-%d' % os.getpid())
     os.makedirs(tmp, exist_ok=True)
-    n_valid, n_mal = (110, 45) if tier == 'quick' else (1100, 400)
-    cases = []
+    n_valid, n_mal = (100, 40) if tier == 'quick' else (900, 300)
+    cases = gen_exhaustive(False, True)
+    if tier != 'quick':
+        cases += gen_exhaustive(True, True) + gen_exhaustive(False, False) + gen_exhaustive(True, False)
     try:
         for _ in range(n_valid):
             cases.append(gen_valid(rng, tmp))
